@@ -9,7 +9,7 @@ from __future__ import annotations
 
 import ast
 
-from ..astutil import calls_in, const_value, dotted, enclosing_stmt, kwarg, src, walk_local
+from ..astutil import ancestors, handler_catches, calls_in, const_value, dotted, enclosing_stmt, kwarg, src, walk_local
 from ..cfg import cfg_of
 from ..loader import AnalysisError
 from ..terms import contains, show
@@ -178,6 +178,30 @@ def r5_helpers(ctx):
             '_delete_cached tolerates a missing entry (missing_ok=True)',
             '_delete_cached fails when the entry is not cached: deleting a snapshot that was never cached fails only with the cache enabled',
         )
+    # a vanished entry is a miss, not an error: the read of the entry is protected by a FileNotFoundError handler
+    # (in the helper or around its call) - an existence test before the read does not protect against another client's delete
+    def _protected(fi, node):
+        for a_ in ancestors(node):
+            if isinstance(a_, ast.Try) and any(x is node for b_ in a_.body for x in ast.walk(b_)):
+                for h_ in a_.handlers:
+                    names_ = handler_catches(h_)
+                    if not names_ or any(n_.rsplit('.', 1)[-1] in ('FileNotFoundError', 'OSError', 'Exception', 'BaseException') for n_ in names_):
+                        return True
+        return False
+
+    reads = [c for c in calls_in(ge.node) if isinstance(c.func, ast.Attribute) and c.func.attr in ('read_bytes', 'open', 'read')]
+    inner_ok = bool(reads) and all(_protected(ge, c) for c in reads)
+    dl_ = corpus.func('repository', 'Repository._download_snapshot_threadsafe')
+    outer = list(self_calls(dl_.node, {'_get_cached'}))
+    outer_ok = bool(outer) and all(_protected(dl_, c) for c in outer)
+    ctx.check(
+        inner_ok or outer_ok,
+        'C18.R5',
+        f'{func_label(ge)}|vanished-entry-is-a-miss',
+        loc(ge, ge.node),
+        'a cache entry that disappears (another client deletes it) is treated as a miss: the read is under a FileNotFoundError handler',
+        'the cache read is not protected by a FileNotFoundError handler (e.g. an is_file() test followed by the read): an entry removed by another client in between makes the command fail only because the cache is on',
+    )
     # the helpers touch their own entry only: removing / renaming directories races with another loader's mkdir + write
     for f in (st, ge, de):
         other = [c for c in calls_in(f.node) if isinstance(c.func, ast.Attribute) and c.func.attr in ('rmdir', 'removedirs', 'rmtree', 'rename', 'replace', 'touch')] + [c for c in calls_in(f.node) if (dotted(c.func) or '') in ('os.rmdir', 'os.removedirs', 'shutil.rmtree', 'os.rename', 'os.replace')]
@@ -201,8 +225,6 @@ def r5_helpers(ctx):
     for t in walk_local(dl.node):
         if isinstance(t, ast.Try) and any(True for s in t.body for _ in self_calls(s, {'_get_cached'})):
             for h in t.handlers:
-                from ..astutil import handler_catches
-
                 names = handler_catches(h)
                 ctx.check(
                     names == ['FileNotFoundError'],
